@@ -133,6 +133,8 @@ pub fn boolean_pop(push_state: &mut PushState, _instruction_cache: &InstructionC
 /// BOOLEAN.POP: Pops the BOOLEAN stack.
 pub fn boolean_rand(push_state: &mut PushState, _instruction_cache: &InstructionCache) {
     let mut rng = rand::thread_rng();
+    #[cfg(feature = "verif")]
+    let mut rng = crate::push::verif::rng(rng);
     let bval = rng.gen_range(0..2) == 1;
     push_state.bool_stack.push(bval);
 }
